@@ -184,7 +184,10 @@ class ListeningConnection(Connection):
         )
         connection._reader, connection._writer = reader, writer
         await self.network.on_peer_accepted(connection)
-        await connection.set_state(ConnectionState.CONNECTED)
+        # The accept handler disconnects the connection when the peer
+        # initialization fails, do not report it as connected afterwards
+        if connection.state == ConnectionState.UNINITIALIZED:
+            await connection.set_state(ConnectionState.CONNECTED)
 
 
 class DataConnection(Connection, abc.ABC):
